@@ -203,6 +203,9 @@ class Check:
             print("KNOWN-FINDING: property=%s %s [%s]" % (self.prop, k["what"], fid))
         rc = 0
         confirmed = []
+        import shutil
+
+        shutil.rmtree(os.path.join(REPLAY_DIR, self.prop), ignore_errors=True)  # replays of earlier runs are stale
         if new:
             os.makedirs(os.path.join(REPLAY_DIR, self.prop), exist_ok=True)
             shown = 0
